@@ -38,8 +38,19 @@ def run(ctx: Ctx) -> int:
         res, exc, _, _ = tg.unprotect(data, kdf_budget=400, cache=cache)
         if res in ("kdf_budget", "step_budget"):
             res = "error"
+        sealed = any(f in ("wrapped_cek", "gcm_nonce", "ciphertext", "tag") or (f == "trailing_bytes" and tg.layout == "trailing") for f in fields) \
+            and not what.startswith("truncate")
+        if sealed:
+            try:      # labels are a guess: only an actual difference in the sealed octets counts
+                from .. import blobref as _br
+
+                p2, p1 = _br.parse_blob(data), tg.parsed
+                if (p2["enc_cek"], p2["nonce"], p2["ct"]) == (p1["enc_cek"], p1["nonce"], p1["ct"]):
+                    sealed = False
+            except Exception:  # noqa
+                pass
         rows.append({"id": len(rows), "kind": "tamper", "layout": tg.layout, "mode": tg.mode, "hash": tg.h, "fields": fields, "kinds": kinds, "what": what,
-                     "res": res, "exc": exc, "allowed": allowed})
+                     "res": res, "exc": exc, "allowed": allowed, "sealed": sealed})
 
     for h, mode, layout in combos:
         tg = blobfuzz.Target(rng, h, mode, layout, rng.randbytes(rng.choice([1, 16, 33])))
@@ -96,6 +107,63 @@ def run(ctx: Ctx) -> int:
                 b = bytearray(tg.blob)
                 b[bit // 8] ^= 1 << (bit % 8)
                 add(tg, bytes(b), [blobfuzz.field_of(tg.fields, bit // 8)], ["flip"], f"bit {bit} (shared cache)", ["error", "needs_network", "plain_ok"], cache=shared)
+        # parameter-driven families (structure-aware, several cooperating sites): (1) the content / key encryption algorithm is
+        # swapped for another AES algorithm with parameters and content shaped for it, (2) the GCM ICV length parameter is lowered
+        # and the tag cut to match, with and without a flipped ciphertext bit
+        if layout == "in_envelope":
+            from ..drivers import c05 as P5
+            from .. import blobref
+
+            tree = blobfuzz.parse_tree(tg.blob)
+            ct_full = blobref.parse_blob(tg.blob)["ct"]
+            aes = [f"2.16.840.1.101.3.4.1.{n}" for n in (1, 2, 3, 4, 5, 6, 7, 21, 22, 23, 24, 25, 26, 27, 41, 42, 43, 44, 45, 47, 48)]
+            gcm_params = blobfuzz.node_at(tree, P5.P_GCMP)
+            param_variants = [("gcm", None), ("iv16", [0x04, bytes(range(16))]), ("iv12", [0x04, bytes(12)]), ("null", [0x05, b""]), ("absent", "drop")]
+            content_variants = [("same", ct_full), ("blocks", ct_full[: len(ct_full) // 16 * 16] or ct_full), ("one-block", (ct_full * 2)[:16]), ("two-blocks", (ct_full * 3)[:32])]
+
+            def render_with(oid_path: tuple, oid: str, pv: t.Any, content: bytes, vary: int = -1) -> bytes:
+                import copy
+
+                tr = copy.deepcopy(tree)
+                blobfuzz.node_at(tr, oid_path)[1] = blobref.der_oid(oid)[2:]
+                if pv == "drop":
+                    cea = blobfuzz.node_at(tr, P5.P_CEA)
+                    cea[1] = cea[1][:1]
+                elif pv is not None:
+                    blobfuzz.node_at(tr, P5.P_CEA)[1][1] = list(pv)
+                c = bytearray(content)
+                if vary >= 0 and len(c) >= 17:
+                    c[-17] = vary
+                elif vary >= 0 and c:
+                    c[0] = vary
+                blobfuzz.node_at(tr, P5.P_CT)[1] = bytes(c)
+                return blobfuzz.render(tr, None)
+
+            for oid in aes:
+                for pname, pv in param_variants:
+                    for cname, content in content_variants:
+                        add(tg, render_with(P5.P_CEA_OID, oid, pv, content), ["alg_oid", "gcm_nonce", "ciphertext"], ["substitute"] * 3,
+                            f"content algorithm {oid} params {pname} content {cname}", ["error", "plain_ok"])
+            # block modes without integrity accept a padding with probability 1/256: sweep one byte for the CBC/ECB-like candidates
+            for oid in (aes[1], aes[8], aes[15], aes[0], aes[14]):
+                for v in range(256):
+                    add(tg, render_with(P5.P_CEA_OID, oid, [0x04, bytes(range(16))], (ct_full * 3)[:32], vary=v), ["alg_oid", "gcm_nonce", "ciphertext"],
+                        ["substitute"] * 3, f"content algorithm {oid} iv16 two blocks, byte sweep {v}", ["error", "plain_ok"])
+            for oid in aes:
+                tr2 = __import__("copy").deepcopy(tree)
+                blobfuzz.node_at(tr2, P5.P_KEA_OID)[1] = blobref.der_oid(oid)[2:]
+                add(tg, blobfuzz.render(tr2, None), ["alg_oid"], ["substitute"], f"key encryption algorithm {oid}", ["error", "plain_ok"])
+            for icv in (0, 1, 4, 8, 12, 13, 14, 15, 17, 32, 255):
+                for flipbit in (False, True):
+                    tr3 = __import__("copy").deepcopy(tree)
+                    blobfuzz.node_at(tr3, P5.P_ICV)[1] = bytes([icv]) if icv < 128 else bytes([0, icv])
+                    body, tag = ct_full[:-16], ct_full[-16:]
+                    if flipbit and body:
+                        body = bytes([body[0] ^ 1]) + body[1:]
+                    blobfuzz.node_at(tr3, P5.P_CT)[1] = body + tag[: min(icv, 16)]
+                    add(tg, blobfuzz.render(tr3, None), ["icv_len"] + (["tag"] if icv < 16 else []) + (["ciphertext"] if flipbit and body else []),
+                        ["substitute"] + (["truncate"] if icv < 16 else []) + (["flip"] if flipbit and body else []),
+                        f"ICV length {icv} with tag cut to match{' + ciphertext bit flipped' if flipbit else ''}", ["error", "plain_ok"])
         # byte substitutions / insertions / deletions at random positions, 3-site mutations
         for _ in range(ctx.pick(600, 6000)):
             b = bytearray(tg.blob)
@@ -113,13 +181,13 @@ def run(ctx: Ctx) -> int:
                     del b[pos]
             add(tg, bytes(b), ["random"], kinds, "random sites", ["error", "needs_network", "plain_ok"])
     ctx.count(len(rows))
-    slim = [{k: r_[k] for k in ("id", "kind", "res", "allowed")} for r_ in rows]
+    slim = [{k: r_[k] for k in ("id", "kind", "res", "allowed", "sealed")} for r_ in rows]
     bad, stats = validate(ctx, "TraceBlob", "TraceBlob.cfg", slim, chunk=8000, what="tamper")
     ctx.note_drift("outcome_outside_field_class_prediction", sum(s.get("drift", 0) for s in stats))
     for i, clauses in bad.items():
         r_ = rows[i]
         ctx.violation(f"tamper:{clauses[0]}:{r_['mode']}:{r_['layout']}:{r_['fields'][0]}", ",".join(clauses), r_,
-                      f"{r_['hash']} {r_['mode']} {r_['layout']}: {r_['what']} in {r_['fields']} ({r_['kinds']}) decrypted to DIFFERENT plaintext")
+                      f"{r_['hash']} {r_['mode']} {r_['layout']}: {r_['what']} in {r_['fields']} ({r_['kinds']}) -> {r_['res']}")
     from collections import Counter
     ctx.cov["outcomes"] = dict(Counter(r_["res"] for r_ in rows))
     ctx.cov["same_plaintext_by_field"] = dict(Counter(r_["fields"][0] for r_ in rows if r_["res"] == "plain_ok" and r_["kinds"] == ["flip"]))
@@ -137,8 +205,8 @@ def run(ctx: Ctx) -> int:
 def selftest(ctx: Ctx) -> int:
     from ..tracecheck import selftest_expect_reject
 
-    good = [{"id": 0, "kind": "tamper", "res": "error", "allowed": ["error"]}, {"id": 1, "kind": "tamper", "res": "plain_ok", "allowed": ["error"]}]
-    bad = [{"id": 2, "kind": "tamper", "res": "plain_different", "allowed": ["error"]}]
+    good = [{"id": 0, "kind": "tamper", "res": "error", "allowed": ["error"], "sealed": True}, {"id": 1, "kind": "tamper", "res": "plain_ok", "allowed": ["error"], "sealed": False}]
+    bad = [{"id": 2, "kind": "tamper", "res": "plain_different", "allowed": ["error"], "sealed": False}, {"id": 3, "kind": "tamper", "res": "plain_ok", "allowed": ["error"], "sealed": True}]
     selftest_expect_reject(ctx, "TraceBlob", "TraceBlob.cfg", good, bad, "c04")
     print("selftest C04 ok")
     return 0
